@@ -205,12 +205,15 @@ ScopeOK(W, o) ==
        /\ t[4][1] = "ok" => InSel(W, Ent(t), <<t[4][2], t[4][3]>>)
        /\ Len(t) >= 7 =>
             /\ \A g \in Rng(t[5][2]) : AllIn(W, Ent(t), g[2])
-            /\ \A q \in Rng(t[6][2]) : InSel(W, Ent(t), Ent(q[7]))
+            /\ \A q \in Rng(t[6][2]) : InSel(W, Ent(t), Ent(q[7])) /\ InSel(W, Ent(t), <<q[4], "-">>)
             /\ \A a \in Rng(t[7]) : AllIn(W, Ent(t), a[2][2]) /\ AllIn(W, Ent(t), a[3][2]) /\ AllIn(W, Ent(t), a[4][2])
   /\ \A t \in Rng(o.Y) :
        /\ AllIn(W, Ent(t), t[3][2]) /\ AllIn(W, Ent(t), t[4][2])
        /\ \A g \in Rng(t[6][2]) : AllIn(W, Ent(t), g[2])
        /\ \A q \in Rng(t[7][2]) : InSel(W, Ent(t), Ent(q[7]))
+       \* the lexicon that defines a reported relation is in the selection or,
+       \* for borrowed relations, an expand lexicon
+       /\ \A q \in Rng(t[7][2]) : InSel(W, Ent(t), <<q[4], "-">>) \/ q[4] \in W.E
        /\ \A a \in Rng(t[8]) : AllIn(W, Ent(t), a[2][2]) /\ AllIn(W, Ent(t), a[3][2])
                                /\ \A p \in Rng(a[4][2]) : AllIn(W, Ent(t), p)
 
